@@ -169,6 +169,42 @@ func gen(tier string, rng *h.Rng, emit func(string)) {
 	for n := 1; n <= 3; n++ {
 		emit(fmt.Sprintf("race %d", n))
 	}
+	// configuration histories: setters, reconnects, failures, then a call
+	prices := []string{"0", "1", "20000000000", "5000000000", "9223372036854775807"}
+	limits := []string{"21000", "800000", "5000000", "4700000"}
+	// every (price before, price set, reconnect?) triple once
+	for _, p0 := range prices {
+		for _, p1 := range prices {
+			emit(fmt.Sprintf("cfg 5000000 %s 1 tx:acc gp:%s tx:acc re tx:acc re tx:acc", p0, p1))
+			emit(fmt.Sprintf("cfg 5000000 %s 56 gp:%s gl:%s re tx:nonce,acc tx:acc,acc re tx:acc,acc", p0, p1, limits[rng.Intn(len(limits))]))
+		}
+	}
+	ncfg := 60
+	if thorough {
+		ncfg = 600
+	}
+	for j := 0; j < ncfg; j++ {
+		n := 1 + rng.Intn(3)
+		var ops []string
+		for k := 2 + rng.Intn(7); k > 0; k-- {
+			switch rng.Intn(5) {
+			case 0:
+				ops = append(ops, "gp:"+prices[rng.Intn(len(prices))])
+			case 1:
+				ops = append(ops, "gl:"+limits[rng.Intn(len(limits))])
+			case 2:
+				ops = append(ops, "re")
+			default:
+				a := make([]string, n)
+				for i := range a {
+					a[i] = []string{"acc", "acc", "conn", "nonce", "other", "revert", "closed"}[rng.Intn(7)]
+				}
+				ops = append(ops, "tx:"+strings.Join(a, ","))
+			}
+		}
+		ops = append(ops, "tx:"+strings.TrimSuffix(strings.Repeat("acc,", n), ","))
+		emit(fmt.Sprintf("cfg %s %s %d %s", limits[rng.Intn(len(limits))], prices[rng.Intn(len(prices))], []int{1, 4, 56, 97}[rng.Intn(4)], strings.Join(ops, " ")))
+	}
 	// 2. marshalling
 	for k := 0; k < 64; k++ {
 		emit("sig " + sigBoundary(rng, k))
